@@ -53,6 +53,12 @@ CoreValues == <<
   V("list:ints", "[1, 2]", TRUE, FALSE, "std"),
   V("list:nested", "[[1], {'a': 1}, (2,)]", TRUE, FALSE, "std"),
   V("list:deep", "deeplist()", TRUE, FALSE, "std"),
+  \* sequences of would-be pairs of every wrong length (dict(), dict.update(), zip-like consumers index into them)
+  V("list:1-tuples", "[('a',)]", TRUE, FALSE, "std"),
+  V("list:3-tuples", "[('a', 1, 2)]", TRUE, FALSE, "std"),
+  V("list:pairs", "[('a', 1), ('b', 2)]", TRUE, FALSE, "std"),
+  V("list:strs", "['ab', 'c', '']", TRUE, FALSE, "std"),
+  V("tuple:of-empty", "((),)", FALSE, FALSE, "std"),
   V("dict:empty", "{}", TRUE, FALSE, "std"),
   V("dict:a", "{'a': 1}", TRUE, FALSE, "std"),
   V("set:empty", "set()", TRUE, FALSE, "std"),
@@ -163,6 +169,21 @@ Operators == <<
   O("filter", 2, "expr", "list(filter(a, b))[:5]"), O("zip", 2, "expr", "list(zip(a, b))[:5]"), O("sorted-key", 2, "expr", "sorted(a, key=b)"),
   O("class-2bases", 2, "stmt", "class C(a, b):\n    pass\n"), O("with-as", 2, "stmt", "with a as b.x:\n    pass\n"),
 
+  \* one keyword argument under each of the parameter names the builtins and methods use (a keyword alone, without the
+  \* positional argument it normally accompanies, reaches the unguarded reads of a missing positional)
+  O("kw:key", 2, "expr", "a(key=b)"), O("kw:reverse", 2, "expr", "a(reverse=b)"), O("kw:sep", 2, "expr", "a(sep=b)"),
+  O("kw:end", 2, "expr", "a(end=b)"), O("kw:file", 2, "expr", "a(file=b)"), O("kw:flush", 2, "expr", "a(flush=b)"),
+  O("kw:default", 2, "expr", "a(default=b)"), O("kw:start", 2, "expr", "a(start=b)"), O("kw:mode", 2, "expr", "a(mode=b)"),
+  O("kw:base", 2, "expr", "a(base=b)"), O("kw:iterable", 2, "expr", "a(iterable=b)"), O("kw:object", 2, "expr", "a(object=b)"),
+  O("kw:encoding", 2, "expr", "a(encoding=b)"), O("kw:errors", 2, "expr", "a(errors=b)"), O("kw:name", 2, "expr", "a(name=b)"),
+  O("kw:step", 2, "expr", "a(step=b)"), O("kw:fillchar", 2, "expr", "a(fillchar=b)"),
+  \* the builtins that are Excluded as callables (I/O, process) in the forms that cannot touch a file or the process
+  O("open-mode-only", 1, "expr", "open(mode=a)"), O("open-buffering-only", 1, "expr", "open(buffering=a)"), O("open-kwargs", 1, "expr", "open(**a)"),
+  O("print-sep", 2, "expr", "print(a, sep=b)"), O("print-end", 2, "expr", "print(a, end=b)"), O("print-file", 2, "expr", "print(a, file=b)"),
+  O("print-sep-only", 1, "expr", "print(sep=a)"), O("print-star", 1, "expr", "print(*a)"), O("print-flush", 2, "expr", "print(a, flush=b)"),
+  O("eval1", 1, "expr", "eval(a)"), O("eval2", 2, "expr", "eval(a, b)"), O("exec2", 2, "expr", "exec(a, b)"),
+  O("compile2", 2, "expr", "compile(a, 'f', b)"), O("import1", 1, "expr", "__import__(a)"),
+
   O("pow3", 3, "expr", "pow(a, b, c)"), O("setitem", 3, "stmt", "a[b] = c\n"), O("slice", 3, "expr", "a[b:c]"), O("slice3", 3, "expr", "a[b:c:b]"),
   O("setslice", 3, "stmt", "a[b:c] = a\n"), O("delslice", 3, "stmt", "del a[b:c]\n"), O("setslice-val", 3, "stmt", "a[b:] = c\n"),
   O("call2", 3, "expr", "a(b, c)"), O("call-star-kw", 3, "expr", "a(*b, **c)"), O("setattr-dyn", 3, "expr", "setattr(a, b, c)"),
@@ -203,6 +224,66 @@ Top(t, b) == IF t = "module" THEN <<"n0 = 0">> \o b
              ELSE <<"n0 = 0", "def f():">> \o Ind(b) \o <<"r = f()", "try:", "    r = list(r)", "except TypeError:", "    pass">>
 Programs == { [top |-> t, outer |-> w1, inner |-> w2, exit |-> e, lines |-> Top(t, Wrap(w1, Wrap(w2, <<e>>, "2"), "1"))] :
                 t \in Tops, w1 \in Wrappers, w2 \in Wrappers, e \in Exits }
+\* ---- re-entrant programs: a callback that runs INSIDE a container operation changes the container ----
+\* A host operation on the list L (dict D, set S) calls back into Python - a key function, __eq__ / __lt__ of a member,
+\* a generator feeding the operation, the body of a loop - and on its T-th call the callback shrinks, grows or empties
+\* the container.  Python answers with a value or an exception (ValueError "list modified during sort", RuntimeError
+\* "changed size during iteration", IndexError ...); an implementation that measured the container once and then
+\* indexes it unchecked panics.  (Found missing by an independently seeded change: list.sort swapping unchecked.)
+ListHosts == << "L.sort(key=cb)", "L.sort(key=cb, reverse=True)", "r = sorted(L, key=cb)", "r = min(L, key=cb)", "r = max(L, key=cb)",
+                "r = list(map(cb, L))", "r = list(filter(cb, L))", "r = [cb(x) for x in L]", "for x in L: cb(x)",
+                "r = L.index(E())", "r = L.count(E())", "L.remove(E())", "r = E() in L", "r = L == [E(), E(), E(), E(), E()]",
+                "r = L < [E(), E(), E(), E(), E()]", "L.extend(gen())", "L[:] = gen()", "L += gen()", "L[1:3] = gen()", "L[::2] = gen()",
+                "r = list(zip(L, gen()))", "r = list(enumerate(gen()))", "r = sum(gen())", "r = tuple(gen())", "r = L + list(gen())",
+                "r = L * cbi()", "r = L[cbi():]", "L.insert(cbi(), 7)", "r = L.pop(cbi())", "L[cbi()] = 7", "del L[cbi()]",
+                "r = ''.join(str(x) for x in gen())", "r = reversed(L); cb(0); r = list(r)", "it = iter(L); cb(0); r = list(it)" >>
+ListMutations == << "del L[1:]", "L.clear()", "L.append(0)", "L.extend([0] * 50)", "del L[0]", "L.pop()", "L.reverse()", "L[:] = []", "L.insert(0, 9)" >>
+DictHosts == << "for k in D: mut()", "r = [mut() for k in D]", "r = list(map(cb, D))", "D.update(pairs())", "r = sorted(D, key=cb)",
+                "r = min(D, key=cb)", "r = dict(pairs())", "for k in D.keys(): mut()", "for k in D.items(): mut()", "for k in D.values(): mut()",
+                "r = D == {'a': E(), 'b': E(), 'c': E()}" >>
+DictMutations == << "D.clear()", "D['zz'] = 1", "del D['a']", "D.pop('b', None)", "D.update({'q': 1})" >>
+SetHosts == << "for e in S: mut()", "r = [mut() for e in S]", "r = sorted(S, key=cb)", "S.update(gen())", "r = S | set(gen())", "r = min(S, key=cb)" >>
+SetMutations == << "S.clear()", "S.add(99)", "S.discard(1)", "S.pop()" >>
+KeyReturns == << "x", "n[0]", "-n[0]" >>
+ReScaffold(size, t, mutation, keyret) == <<
+  "L = list(range(" \o ToString(size) \o ", 0, -1))",
+  "D = {'a': 1, 'b': 2, 'c': 3}",
+  "S = {1, 2, 3}",
+  "n = [0]",
+  "def mut():",
+  "    n[0] += 1",
+  "    if n[0] == " \o ToString(t) \o ":",
+  "        " \o mutation,
+  "    return 0",
+  "def cb(x):",
+  "    mut()",
+  "    return " \o keyret,
+  "def cbi():",
+  "    mut()",
+  "    return 1",
+  "class E:",
+  "    def __eq__(self, o):",
+  "        mut()",
+  "        return False",
+  "    def __lt__(self, o):",
+  "        mut()",
+  "        return True",
+  "def gen():",
+  "    for i in range(3):",
+  "        mut()",
+  "        yield i",
+  "def pairs():",
+  "    for k in ['x', 'y', 'z']:",
+  "        mut()",
+  "        yield (k, 1)" >>
+ReProg(kind, host, size, t, mutation, keyret) ==
+  [name |-> "reentrant " \o kind, host |-> host, mutation |-> mutation, lines |-> ReScaffold(size, t, mutation, keyret) \o <<host>>]
+Rng(q) == { q[i] : i \in 1..Len(q) }
+ReentrantPrograms ==
+  { ReProg("list", h, sz, t, m, kr) : h \in Rng(ListHosts), sz \in {2, 3, 5}, t \in 1..5, m \in Rng(ListMutations), kr \in Rng(KeyReturns) } \cup
+  { ReProg("dict", h, 3, t, m, "x") : h \in Rng(DictHosts), t \in 1..3, m \in Rng(DictMutations) } \cup
+  { ReProg("set", h, 3, t, m, "x") : h \in Rng(SetHosts), t \in 1..3, m \in Rng(SetMutations) }
+
 \* programs whose only legal outcomes need unbounded stack in this implementation: subprocess tier
 FatalPrograms == { [name |-> "unbounded recursion", lines |-> <<"def f():", "    return f()", "f()">>],
                    [name |-> "unbounded recursion through __repr__-like nesting", lines |-> <<"def g(n):", "    return [g(n + 1)]", "g(0)">>] }
